@@ -43,6 +43,9 @@ type vfStun struct {
 	AuthBy     string  `json:"auth_by,omitempty"` // name of the registered password under which MESSAGE-INTEGRITY verifies
 }
 
+// vfNomAttr: non-zero while a session runs whose agents use WithNominationAttribute (sessions run one at a time).
+var vfNomAttr atomic.Uint32 //nolint:gochecknoglobals
+
 func vfDecodeStun(data []byte, pwds map[string]string) *vfStun {
 	s := &vfStun{}
 	if !stun.IsMessage(data) {
@@ -62,7 +65,13 @@ func vfDecodeStun(data []byte, pwds map[string]string) *vfStun {
 	}
 	s.UseCand = m.Contains(stun.AttrUseCandidate)
 	var nom NominationAttribute
-	if nom.GetFrom(m) == nil {
+	if t := vfNomAttr.Load(); t != 0 {
+		// the session's agents are configured with a custom nomination attribute type: only that one counts
+		if nom.GetFromWithType(m, stun.AttrType(t)) == nil { //nolint:gosec
+			v := nom.Value
+			s.Nomination = &v
+		}
+	} else if nom.GetFrom(m) == nil {
 		v := nom.Value
 		s.Nomination = &v
 	}
